@@ -2,11 +2,13 @@
    Statements only; proofs in proofs/PipelineProofs.v, composing the layer theorems: send queue (C05: per-stream wire
    order), fragmenter and reassembly (C03), codec (C02: decode (encode f) = norm f), byte-stream parser (C04: chunking
    independence, exactness).  Model: model/Pipeline.v over model/SendQueue.v, Fragmenter.v, Frame.v, Parser.v.
-   Dispatch of complete frames to handlers / subscribers / awaitables is the Endpoint model (C07..C12 theorems:
-   one frame, one stream, one object). *)
+   Above the pipeline: model/Network.v joins two endpoints (model/Endpoint.v, the model the C07..C12 trace
+   correspondences tie to the code) by links with exactly the guarantee C01_end_to_end gives — per stream first in first
+   out, streams may overtake each other — and the C01_network_* theorems (proofs/NetworkProofs.v) follow every payload
+   from the application's call on one side to the handler / subscriber / awaitable on the other. *)
 From Coq Require Import NArith List Bool Init.Byte.
 From RSV Require Import gen.GenConst lib.Bytes model.Frame model.Parser model.Fragmenter model.SendQueue model.Pipeline
-     proofs.FragmenterProofs proofs.SendQueueProofs proofs.PipelineProofs.
+     model.Endpoint model.Network proofs.FragmenterProofs proofs.SendQueueProofs proofs.PipelineProofs proofs.NetworkProofs.
 Import ListNotations.
 Open Scope N_scope.
 
@@ -62,3 +64,84 @@ Theorem C01_example :
                                      dropN (wire_bytes (wire s)) 105])) = [(FT_PAYLOAD, 150)].
 Proof. exact end_to_end_example. Qed.
 Print Assumptions C01_example.
+
+(* ------------------------------------------------------------------------------------------------------------------ *)
+(* APPLICATION TO APPLICATION.  For EVERY history of two connected endpoints — application calls, future callbacks,
+   publisher signals and close sweeps on either side, frames delivered at any later moment, frames of different streams
+   overtaking each other — each side s and each stream k: the payloads the application at s is given from stream k
+   (request handler arguments, subscriber elements, awaitable results) are, in order and without repetition, payloads of
+   frames its peer queued on stream k.  Nothing fabricated, duplicated, reordered within the stream, altered, or taken
+   from another stream; sections that are not deliveries hand the application no payload at all. *)
+Theorem C01_network_delivery : forall ls s k,
+  let tr := snd (net_run net_init ls) in
+  subseq (got tr s k) (pmap carried (on_stream k (nwire tr (other s)))).
+Proof. exact network_delivery. Qed.
+Print Assumptions C01_network_delivery.
+
+(* ... and what the peer queued on stream k is what was dispatched here followed by what is still under way: a frame
+   leaves the link only by being dispatched *)
+Theorem C01_network_in_flight : forall ls s k,
+  let r := net_run net_init ls in
+  on_stream k (nwire (snd r) (other s)) = on_stream k (delivered (snd r) s) ++ on_stream k (inbox (fst r) s).
+Proof. exact network_in_flight. Qed.
+Print Assumptions C01_network_in_flight.
+
+(* emission: the payload-carrying frames one application call / callback / publisher signal queues carry exactly the
+   payload handed over in that section (at most one frame); reactions to received frames carry none *)
+Theorem C01_network_emission : forall u e l, is_recv l = false ->
+  pmap pcarried (sent_frames (snd (ep_step u e l))) = [] \/
+  exists p, label_payload l = Some p /\ pmap pcarried (sent_frames (snd (ep_step u e l))) = [p].
+Proof. exact local_emission. Qed.
+Print Assumptions C01_network_emission.
+
+Theorem C01_network_reactions_carry_nothing : forall e f o u,
+  pmap pcarried (sent_frames (snd (recv_dispatch e f o u))) = [].
+Proof. exact delivery_emits_no_payload. Qed.
+Print Assumptions C01_network_reactions_carry_nothing.
+
+(* one dispatched frame hands the application nothing or exactly the payload it carries ... *)
+Theorem C01_dispatch_intact : forall e f o u,
+  app_payloads (snd (recv_dispatch e f o u)) = [] \/
+  exists p, carried f = Some p /\ app_payloads (snd (recv_dispatch e f o u)) = [p].
+Proof. exact dispatch_intact. Qed.
+Print Assumptions C01_dispatch_intact.
+
+(* ... every signal it causes goes to the object registered for that frame's stream (or the responder it creates) ... *)
+Theorem C01_dispatch_right_object : forall e f o u, EndpointProofs.Inv e ->
+  Forall (fun x => match x with
+                   | XFut i _ _ _ | XCb i _ | XPub i _ | XAppFutCancel i =>
+                       tget (table e) (fsid f) = Some i \/ (tget (table e) (fsid f) = None /\ i = length (objs e))
+                   | _ => True end) (snd (recv_dispatch e f o u)).
+Proof. exact delivery_reaches_own_object. Qed.
+Print Assumptions C01_dispatch_right_object.
+
+(* ... and nothing is lost at dispatch: an element or response for a stream whose local party is still listening (pending
+   awaitable; subscriber set and, for a channel, receive direction open) is handed to exactly that object, and a request
+   on a free id reaches the handler with its payload whether the handler then raises or not *)
+Theorem C01_element_delivered : forall e sid oid ob ign fo co md d oc u,
+  sid <> 0 -> tget (table e) sid = Some oid -> nth_error (objs e) oid = Some ob -> receptive ob = true ->
+  let effs := snd (recv_dispatch e (FPayload sid ign fo co true md d) oc u) in
+  app_payloads effs = [(md, d)] /\ Forall (for_object oid) effs.
+Proof. exact element_delivered. Qed.
+Print Assumptions C01_element_delivered.
+
+Theorem C01_request_delivered : forall e f o u,
+  is_request_type f = true -> fsid f <> 0 -> tget (table e) (fsid f) = None ->
+  exists p, carried f = Some p /\ app_payloads (snd (recv_dispatch e f o u)) = [p].
+Proof. exact request_delivered. Qed.
+Print Assumptions C01_request_delivered.
+
+(* non-vacuity: request-response from A, a stream from B with two elements overtaking the response on the link *)
+Theorem C01_network_example :
+  let ls := [NLocal SA (LReqResponse [x01] [x02]); NLocal SB (LReqStream [x03] [x04]);
+             NLocal SB (LSubscribe 0%nat true [x03] [x04]);
+             NDeliver SB 1 OFuture true; NDeliver SA 2 OPublisher true;
+             NLocal SA (LPubNext 1%nat [x05] [x06] false); NLocal SB (LAppResolve 1%nat (ARResult [x07] [x08]));
+             NLocal SB (LFutCb 1%nat (ARResult [x07] [x08])); NLocal SA (LPubNext 1%nat [] [x09] true);
+             NDeliver SB 2 ONone true; NDeliver SA 1 ONone true; NDeliver SB 2 ONone true] in
+  let tr := snd (net_run net_init ls) in
+  got tr SB 1 = [([x01], [x02])] /\ got tr SA 2 = [([x03], [x04])] /\
+  got tr SB 2 = [([x05], [x06]); ([], [x09])] /\ got tr SA 1 = [([x07], [x08])] /\
+  inbox (fst (net_run net_init ls)) SA = [] /\ inbox (fst (net_run net_init ls)) SB = [].
+Proof. exact network_example. Qed.
+Print Assumptions C01_network_example.
